@@ -111,35 +111,80 @@ Proof.
   - injection E as <-. repeat split; [repeat constructor | cbn; lia | discriminate].
 Qed.
 
-Lemma cleanup_codes hr c w e w' :
-  cleanup true hr c w = (e, w') ->
-  exists l, codes_after w w' l /\ all_codes (expected4 c) l.
+(* codes a later close attempt may carry: the configured error code (or the fallback when that
+   one is invalid), or the fallback after the server rejected a close with "invalid close code" *)
+Definition allowed (c : cfg) (l : list (event * sfail)) : Prop :=
+  Forall (fun y => y = expected4 c \/ y = fallback_ws_error_code) (close_codes l).
+
+(* the cleanup's own closes: the first carries the error code *)
+Definition good4 (c : cfg) (l : list (event * sfail)) : Prop :=
+  match close_codes l with
+  | [] => True
+  | z :: tl => z = expected4 c /\ Forall (fun y => y = expected4 c \/ y = fallback_ws_error_code) tl
+  end.
+
+Lemma good4_allowed c l : good4 c l -> allowed c l.
 Proof.
-  unfold cleanup, expected4. intro Hs.
-  destruct (op_close true hr c (CInt (err_code c)) false w) as [r w1] eqn:E1.
-  destruct (valid_code (err_code c)) eqn:Hv.
-  - destruct (op_close_valid _ _ _ _ _ _ _ Hv E1) as [l [Hc [Ha _]]].
-    rewrite (code_check_valid _ Hv) in Hs. exists l.
-    destruct r; injection Hs as <- <-; auto.
-  - destruct (op_close_codes _ _ _ _ _ _ _ E1) as [l [Hc [_ [Hx _]]]].
-    destruct (Hx (code_check_invalid _ Hv)) as [-> ->].
-    rewrite (code_check_invalid _ Hv) in Hs.
-    destruct (op_close true hr c (CInt fallback_ws_error_code) false w1) as [r2 w2] eqn:E2.
-    assert (Hvf : valid_code fallback_ws_error_code = true) by reflexivity.
-    destruct (op_close_valid _ _ _ _ _ _ _ Hvf E2) as [l2 [Hc2 [Ha2 _]]].
-    exists l2. unfold codes_after in *. rewrite app_nil_r in Hc.
-    destruct r2; injection Hs as <- <-; (split; [congruence | exact Ha2]).
+  unfold good4, allowed. destruct (close_codes l); [constructor|]. intros [-> H]. constructor; auto.
 Qed.
 
-Lemma all_codes_ok c cause s z l :
-  all_codes z l -> z = expected_code c fallback_ws_error_code 3000 cause s ->
-  (forall y, In y (tl (close_codes l)) -> y = expected4 c) ->
-  wrapper_close_ok c fallback_ws_error_code 3000 cause s l = true.
+Lemma all_codes_allowed c z l :
+  all_codes z l -> z = expected4 c \/ z = fallback_ws_error_code -> allowed c l.
 Proof.
-  unfold wrapper_close_ok, all_codes. intros Ha Hz Ht.
-  destruct (close_codes l) as [|y tl0]; [reflexivity|].
-  inversion Ha; subst. rewrite Z.eqb_refl. cbn.
-  apply forallb_forall. intros x Hx. apply Z.eqb_eq. cbn in Ht. rewrite (Ht x Hx). reflexivity.
+  unfold all_codes, allowed. intros H Hz. rewrite Forall_forall in *. intros y Hy. rewrite (H y Hy). exact Hz.
+Qed.
+
+Lemma cleanup_codes hr c w e w' :
+  cleanup true hr c w = (e, w') ->
+  exists l, codes_after w w' l /\ good4 c l.
+Proof.
+  unfold cleanup. intro Hs.
+  destruct (op_close true hr c (CInt (err_code c)) false w) as [r w1] eqn:E1.
+  assert (Hvf : valid_code fallback_ws_error_code = true) by reflexivity.
+  destruct (valid_code (err_code c)) eqn:Hv.
+  - destruct (op_close_valid _ _ _ _ _ _ _ Hv E1) as [l [Hc [Ha [Hlen Hne]]]].
+    assert (E4 : expected4 c = err_code c) by (unfold expected4; rewrite Hv; reflexivity).
+    assert (G1 : good4 c l).
+    { unfold good4, all_codes in *. destruct (close_codes l) as [|z tl] eqn:Ecc; [exact I|].
+      inversion Ha; subst. split; [congruence|].
+      rewrite Forall_forall in *. intros y Hy. left. rewrite E4. apply H2. exact Hy. }
+    destruct r as [v|x|]; try (injection Hs as <- <-; exists l; auto).
+    destruct (mentions_invalid_code c x); [|injection Hs as <- <-; exists l; auto].
+    destruct (op_close true hr c (CInt fallback_ws_error_code) false w1) as [r2 w2] eqn:E2.
+    destruct (op_close_valid _ _ _ _ _ _ _ Hvf E2) as [l2 [Hc2 [Ha2 _]]].
+    exists (l ++ l2). split.
+    { assert (W : w' = w2) by (destruct r2; injection Hs as _ <-; reflexivity). subst w'.
+      eapply codes_after_trans; eauto. }
+    specialize (Hne x eq_refl).
+    unfold good4. rewrite close_codes_app.
+    (* l is exactly one close event *)
+    destruct l as [|a l']; [congruence|]. destruct l'; [|cbn in Hlen; lia].
+    unfold all_codes in Ha. destruct a as [ev k]. cbn in *.
+    destruct (op_close_codes _ _ _ _ _ _ _ E1) as [l0 [Hc0 [Hl0 _]]].
+    assert (l0 = [(ev, k)]) by (unfold codes_after in *; rewrite Hc in Hc0; apply app_inv_head in Hc0; auto).
+    subst l0. destruct Hl0 as [X|[co [rr [k0 [Ec X]]]]]; [discriminate|]. injection X as -> ->.
+    cbn. rewrite (code_check_valid _ Hv) in Ec. injection Ec as <-. cbn.
+    split; [congruence|]. unfold all_codes in Ha2. rewrite Forall_forall in *.
+    intros y Hy. right. apply Ha2. exact Hy.
+  - destruct (op_close_codes _ _ _ _ _ _ _ E1) as [l [Hc [_ [Hx _]]]].
+    destruct (Hx (code_check_invalid _ Hv)) as [-> ->].
+    unfold mentions_invalid_code in Hs. rewrite (code_check_invalid _ Hv) in Hs.
+    destruct (op_close true hr c (CInt fallback_ws_error_code) false w1) as [r2 w2] eqn:E2.
+    destruct (op_close_valid _ _ _ _ _ _ _ Hvf E2) as [l2 [Hc2 [Ha2 _]]].
+    exists l2. unfold codes_after in *. rewrite app_nil_r in Hc.
+    assert (E4 : expected4 c = fallback_ws_error_code) by (unfold expected4; rewrite Hv; reflexivity).
+    split; [destruct r2; injection Hs as <- <-; congruence|].
+    unfold good4, all_codes in *. destruct (close_codes l2) as [|z tl]; [exact I|].
+    inversion Ha2; subst. split; [congruence|]. rewrite Forall_forall in *. intros y Hy. right. auto.
+Qed.
+
+Lemma tail_ok c tl :
+  Forall (fun y => y = expected4 c \/ y = fallback_ws_error_code) tl ->
+  forallb (fun y => Z.eqb y (expected_code c fallback_ws_error_code 3000 4 0) || Z.eqb y fallback_ws_error_code) tl = true.
+Proof.
+  intro H. apply forallb_forall. intros y Hy. rewrite Forall_forall in H.
+  destruct (H y Hy) as [-> | ->]; [change (expected_code c fallback_ws_error_code 3000 4 0) with (expected4 c) | ];
+    rewrite Z.eqb_refl; [reflexivity | apply orb_true_r].
 Qed.
 
 Lemma code_check_int z co : code_check (CInt z) = inl co -> co = Some z.
@@ -148,25 +193,23 @@ Proof.
     intro H; try discriminate; injection H as <-; reflexivity.
 Qed.
 
-Lemma expected4_eq c : expected_code c fallback_ws_error_code 3000 4 0 = expected4 c.
-Proof. reflexivity. Qed.
-
 Lemma handle_exception_codes hr c x w e w' :
   handle_exception true hr c x w = (e, w') ->
   exists l, codes_after w w' l
             /\ wrapper_close_ok c fallback_ws_error_code 3000 (fst (cause_of (Raised x)))
                                 (snd (cause_of (Raised x))) l = true
-            /\ (not_http x -> all_codes (expected4 c) l).
+            /\ (not_http x -> allowed c l).
 Proof.
   assert (CL : forall e w', cleanup true hr c w = (e, w') ->
                exists l, codes_after w w' l
                  /\ wrapper_close_ok c fallback_ws_error_code 3000 4 0 l = true
-                 /\ all_codes (expected4 c) l).
-  { clear e w'. intros e w' H. destruct (cleanup_codes _ _ _ _ _ H) as [l [Hc Ha]].
-    exists l. repeat split; auto. eapply all_codes_ok; eauto.
-    intros y Hy. unfold all_codes in Ha. rewrite Forall_forall in Ha. apply Ha.
-    destruct (close_codes l); [destruct Hy | right; exact Hy]. }
-  assert (HT : forall s e w', 
+                 /\ allowed c l).
+  { clear e w'. intros e w' H. destruct (cleanup_codes _ _ _ _ _ H) as [l [Hc Hg]].
+    exists l. repeat split; auto; [|apply good4_allowed; exact Hg].
+    unfold wrapper_close_ok. unfold good4 in Hg. destruct (close_codes l) as [|z tl]; [reflexivity|].
+    destruct Hg as [-> Ht]. change (expected_code c fallback_ws_error_code 3000 4 0) with (expected4 c).
+    rewrite Z.eqb_refl. apply tail_ok. exact Ht. }
+  assert (HT : forall s e w',
      (let (r, w1) := op_close true hr c (CInt (s + ws_code_offset)) false w in
       match r with Raise y => (Raised y, w1) | _ => (Returned, w1) end) = (e, w') ->
      exists l, codes_after w w' l /\ wrapper_close_ok c fallback_ws_error_code 3000 3 s l = true).
@@ -206,9 +249,7 @@ Proof.
       exists (l1 ++ l2). split; [eapply codes_after_trans; eauto|].
       destruct Hl1 as [->|[co [rr [k [E ->]]]]].
       * specialize (Hr1 x eq_refl eq_refl). discriminate.
-      * cbn in E. injection E as <-. unfold wrapper_close_ok. cbn.
-        apply forallb_forall. intros y Hy. apply Z.eqb_eq.
-        unfold all_codes in Ha2. rewrite Forall_forall in Ha2. rewrite (Ha2 y Hy). reflexivity.
+      * cbn in E. injection E as <-. unfold wrapper_close_ok. cbn. apply tail_ok. exact Ha2.
     + injection Hs as _ _ <-. exists l1. split; [exact Hc1|].
       destruct Hl1 as [->|[co [rr [k [E ->]]]]]; [reflexivity|].
       cbn in E. injection E as <-. reflexivity.
